@@ -110,7 +110,7 @@ var c04Decl = [][]string{
 	{"(package pk$ (def A 1) (def b 2) (defn Get [] (+ A b)))", "(def r$ 5)", "(+ r$ 1)"},
 	{"(defmac m$ [x] ^(+ 1 ~x))", "(m$ 4)", "(defmac n$ [x & r] ^(list ~x ~@r))", "(n$ 1 2 3)", "(macexpand (m$ 7))"},
 	{"(def ct$ 0)", "(range k v [1 2 3] (set ct$ (+ ct$ k v)))", "(++ ct$)", "(+= ct$ 4)", "(-- ct$)", "ct$"},
-	{"(mdef c$ d$ (list 7 8))", "(+ c$ d$)", "{e$, f$ = 1, 2}", "(+ e$ f$)"},
+	{"(mdef c$ d$ (list 7 8))", "(+ c$ d$)", "{e$, f$ = 1, 2}", "(+ e$ f$)", "(g$ k$ = 5 6)", "(+ g$ k$)", "(def w$ [1 2 3])", "(+ 1 (set (arrayidx w$ [0]) 5))", "(begin {w$[2] = 1} 9)", "{w$[1] += w$[0] += 2}"},
 	{"{x$ := 5}", "{x$++}", "{x$ += 2}", "{if x$ > 3 { x$ } else { 0 }}", "{if x$ > 30 { x$ }}", "{x$ = x$ * 2 + 1}", "x$"},
 	{"(def a$ [1 2 3])", "{a$[1] = 7}", "{a$[0] + a$[2]}", "(def h$ (hash k: 1))", "{h$.k = 4}", "{h$.k + 1}", "(aget a$ 1)"},
 	{"{t$ := 0}", "{for i := 0; i < 3; i++ { t$ += i }}", "{for i := range 3 { t$ += i }}", "{for t$ < 20 { t$ += 5 }}", "{for { t$++; if t$ > 25 { break } }}", "t$"},
